@@ -156,6 +156,26 @@ func genC08(seed uint64, tier string) *plan.Plan {
 			pl.Ops = append(pl.Ops, plan.Op{K: "data", A: int64(r.IntN(nT)), B: int64(1 + r.IntN(4)), C: int64(r.Uint64() >> 1), D: 20})
 		}
 	}
+	if udp && !slow {
+		// Transient write errors in mid-session: a datagram socket reports a refused or unreachable
+		// destination on a later write and stays usable. Nothing of the failed call is written; a failed
+		// template announcement must leave the counter where it was, a failed data attempt may or may
+		// not have moved it (seqCheck). Drawn from a stream of its own: the plans of older seeds stay as they were.
+		r2 := rand.New(rand.NewPCG(seed, 0xc08f))
+		if r2.IntN(3) == 0 {
+			for k := 1 + r2.IntN(3); k > 0; k-- {
+				at := nT + r2.IntN(len(pl.Ops)-nT+1)
+				var op plan.Op
+				if r2.IntN(3) != 0 {
+					op = plan.Op{K: "tmplagain", A: int64(r2.IntN(nT))}
+				} else {
+					op = plan.Op{K: "data", A: int64(r2.IntN(nT)), B: int64(1 + r2.IntN(5)), C: int64(r2.Uint64() >> 1), D: 20}
+				}
+				ins := []plan.Op{{K: "wfault", A: 3}, op, {K: "data", A: int64(r2.IntN(nT)), B: int64(1 + r2.IntN(4)), C: int64(r2.Uint64() >> 1), D: 20}}
+				pl.Ops = append(pl.Ops[:at], append(ins, pl.Ops[at:]...)...)
+			}
+		}
+	}
 	genSchedule(r, pl, 3, 40*len(pl.Ops))
 	return pl
 }
